@@ -53,6 +53,22 @@ def items_for(ctx):
     return f
 
 
+def signal_receipt_items(ctx):
+    """a plugin with a cancel handler and a closure timeout long enough for the signal to travel: cancelled while it
+    executes, it must RECEIVE the signal (the scripted plugin logs the receipt) before it may be killed"""
+    def f(rng):
+        items = []
+        for beh, after in ([('', 60), ('ignore', 60)] if ctx.quick else [('', 60), ('ignore', 60), ('', 5), ('', 200), ('ignore', 200)]):
+            wf = {'steps': {'a': {'kind': 'plugin', 'pstep': 'work', 'fields': {'input': tmap({'id': lit('a')}), 'closure_wait_timeout': lit(1200)}}},
+                  'outputs': {'success': tmap({'r': ref('steps.a.outputs.success.tok')}), 'early': tmap({'r': ref('steps.a.outputs.cancelled_early.tok')})}}
+            inp = {'x': 'x', 'n': 1, 'flag': True}
+            items.append({'wf': wf, 'oc': {'a': okoc()}, 'script': {'a': {'exec': {'hang': True, 'on_cancel': beh}}}, 'input': inp, 'schedule': None,
+                          'cancel': True, 'nomeaning': True, 'bound_ms': GRACE_MS + 1200 + MARGIN_MS, 'at': 'signal-receipt on_cancel=%r after %d ms' % (beh, after),
+                          'extra': {'timeout_ms': 30000, 'runs': [{'input': inp, 'cancel_after_ms': after}]}})
+        return items
+    return f
+
+
 def loop_cancel_items(ctx):
     """a loop with more items than its parallelism, cancelled while the first items execute and the others are queued"""
     def f(rng):
@@ -66,6 +82,19 @@ def loop_cancel_items(ctx):
             it['nomeaning'] = True
             it['bound_ms'] = GRACE_MS + 2000 + MARGIN_MS
             it['at'] = 'loop n=%d par=%d cancel after %d ms' % (n, par, after)
+            it['extra'] = {'timeout_ms': 30000, 'runs': [{'input': it['input'], 'cancel_after_ms': after}]}
+            items.append(it)
+        # loops inside loop items (three levels of engine runs): cancelling the caller must reach the innermost plugins
+        for after in ([40] if ctx.quick else [5, 40, 90]):
+            it = check_c13.nested_loop_item(rng, 2, ['success', 'success', 'success'], par=1)
+            for k in range(3):
+                it['script']['w']['exec_by_id']['k%d' % k]['delay_ms'] = 150
+            it.pop('expect_items', None)
+            it['schedule'] = None
+            it['cancel'] = True
+            it['nomeaning'] = True
+            it['bound_ms'] = GRACE_MS + 3000 + MARGIN_MS
+            it['at'] = 'nested loops, cancel after %d ms' % after
             it['extra'] = {'timeout_ms': 30000, 'runs': [{'input': it['input'], 'cancel_after_ms': after}]}
             items.append(it)
         return items
@@ -115,7 +144,7 @@ def cli_interrupt_part(ctx):
 
 def run(ctx):
     prof = dict(max_steps=3, p_tag=0.0)
-    items, findings, stats = family.run_family_check(ctx, 'C06', n_quick=4, n_thorough=20, profile=prof, extra_items=lambda rng: items_for(ctx)(rng) + loop_cancel_items(ctx)(rng))
+    items, findings, stats = family.run_family_check(ctx, 'C06', n_quick=4, n_thorough=20, profile=prof, extra_items=lambda rng: items_for(ctx)(rng) + loop_cancel_items(ctx)(rng) + signal_receipt_items(ctx)(rng))
     worst = 0.0
     ncancel = 0
     for it in items:
